@@ -34,6 +34,7 @@ TIE = "A: every atomic segment of the real watcher/worker/Scheduler logged as a 
 THEOREMS = [
     ("Kopf.Props.C01", "Kopf.C01.stream_iff_worker"),
     ("Kopf.Props.C01", "Kopf.C01.lossless_ordered"),
+    ("Kopf.Props.C01", "Kopf.C01.ordered_always"),
     ("Kopf.Props.C01", "Kopf.C01.inflight_spec"),
     ("Kopf.Props.C01", "Kopf.C01.serial"),
     ("Kopf.Props.C01", "Kopf.C01.serial_step"),
@@ -45,6 +46,8 @@ THEOREMS = [
     ("Kopf.Props.C01", "Kopf.C01.frame_other_key"),
     ("Kopf.Props.C01", "Kopf.C01.buggy_loses"),
     ("Kopf.Props.C01", "Kopf.C01.limit_zero_starves"),
+    ("Kopf.Props.C01", "Kopf.C01.closed_may_orphan_stream"),
+    ("Kopf.Props.C01", "Kopf.C01.limit_const"),
 ]
 RULE = ("scripted watch streams of 1-4 objects (with/without uid), 2-12 events, idle_timeout/worker_limit/exit_timeout/"
         "consistency scripted, processor durations incl. 0 and idle±1, raising processors, watcher cancellation; arrivals "
@@ -166,10 +169,11 @@ def oracle(scn: dict, log: dict) -> list[tuple[str, dict]]:
                     fail("lost", f"object {d['obj']}: event {d['seq']} was not processed although the stream ended "
                                  f"gracefully with exit_timeout={st.get('exit_timeout')}")
     elif not raised and log["cancel_t"] is not None and generous_exit:
+        # every event the stream handed over was handed over before the cancellation took effect
         for d in delivered:
-            if d["t"] < log["cancel_t"] and d["seq"] not in finished_ok:
-                fail("lost", f"object {d['obj']}: event {d['seq']} delivered at t={d['t']} before the cancellation at "
-                             f"t={log['cancel_t']} was dropped although exit_timeout={st.get('exit_timeout')} allows draining")
+            if d["seq"] not in finished_ok:
+                fail("lost", f"object {d['obj']}: event {d['seq']} delivered at t={d['t']} (cancellation at "
+                             f"t={log['cancel_t']}) was dropped although exit_timeout={st.get('exit_timeout')} allows draining")
     elif raised and generous_exit and log["cancel_t"] is None:
         failing = {c["obj"] for c in raised}
         t_fail = min(c["t1"] for c in raised)
@@ -367,6 +371,24 @@ def evaluate(scn: dict, policy: str) -> dict:
             "tie_groups": log["tie_groups"], "n_calls": len(log["calls"]), "n_delivered": len(log["delivered"])}
 
 
+def _ask(driver: leanio.Driver, reqs: list) -> list:
+    """`Driver.ask`, retried when the shared .olean files are being rebuilt by a concurrent check
+    (the driver runs outside the build lock); the retries wait for the lock."""
+    import time
+    for attempt in range(4):
+        try:
+            if attempt == 0:
+                return driver.ask(reqs)
+            with leanio.lake_lock():
+                pass
+            return driver.ask(reqs)
+        except leanio.LeanError:
+            if attempt == 3:
+                raise
+            time.sleep(1.5 * (attempt + 1))
+    raise AssertionError
+
+
 def check_traces(results: list[dict], driver: leanio.Driver) -> list[dict]:
     """Ask the Lean driver; returns tie failures as dicts {what, replay}."""
     fails: list[dict] = []
@@ -378,7 +400,7 @@ def check_traces(results: list[dict], driver: leanio.Driver) -> list[dict]:
                           "replay": {"scenario": r["scn"], "policy": r["policy"], "reason": s}})
     if not reqs:
         return fails
-    outs = driver.ask(reqs)
+    outs = _ask(driver, reqs)
     for i, out in zip(idx, outs):
         r = results[i]
         if not (isinstance(out, list) and len(out) == 2 and out[0] == "ok"):
